@@ -308,6 +308,127 @@ def scenario_forward_then_local(repo, seed, observer, at="leader", batch=True, n
     return sim, viols, None
 
 
+def scenario_subscription_over_stale_suffix(repo, seed, n_stale=7, batch=True):
+    """A deposed leader C still holds a long uncommitted suffix (positions p+1..p+n of its own old term) when it rejoins
+    a leader B of a later term whose log is SHORTER than that suffix is long.  Before B has walked back to the common
+    prefix, a client of C submits 'late'; B places it at a position INSIDE C's stale range and tells C (index, B's
+    term); then C truncates its stale suffix.  The subscriber of (index, B's term) belongs to B's entry, not to the
+    deleted one: it is answered SUCCESS when C applies B's entry - exactly once."""
+    voters = ["a", "b", "c"]
+    sim = Sim(repo, voters, seed=seed, conf={"appendEntriesUseBatch": batch})
+    sim.connect_all()
+    C = sim.elect(among=voters)
+    if C is None:
+        return sim, [], "no leader"
+    A, B = [x for x in voters if x != C]
+    for k in range(3):
+        sim.submit(C, "w%d" % k, with_cb=False)
+    sim.run(8)
+    for j in (A, B):
+        sim.cut(C, j)                       # silent: C keeps believing it leads
+    stale = [sim.submit(C, "s%d" % k) for k in range(n_stale)]
+    sim.tick(C, 0.0625)
+    # A leads the next term, then B the one after (B's next index for C starts behind B's own short log)
+    L1 = None
+    for _ in range(300):
+        sim.run(1, among=[A, B])
+        L1 = sim.leader([A, B])
+        if L1 is not None:
+            break
+    if L1 is None:
+        return sim, [], "no second leader"
+    L2 = B if L1 == A else A
+    sim.submit(L1, "y0", with_cb=False)
+    sim.run(6, among=[A, B])
+    for _ in range(200):                    # only L2's clock runs: it stands for election and wins with L1's vote
+        sim.tick(L2, 0.0625)
+        sim.deliver_all(among={A, B})
+        sim.tick(L1, 0.0)
+        sim.deliver_all(among={A, B})
+        if sim.objs[L2]._isLeader():
+            break
+    if not sim.objs[L2]._isLeader():
+        return sim, [], "no third leader"
+    sim.run(4, among=[A, B])
+    if sim.last_index(L2) >= sim.last_index(C):
+        return sim, [], "new leader's log is not shorter than the stale suffix"
+    for j in (A, B):
+        sim.connect(C, j)
+    sim.tick(L2, 0.125)                     # first append_entries: rejected by C, which learns the leader
+    while sim.deliver(L2, C):
+        pass
+    sim.tick(C, 0.0)
+    late = sim.submit(C, "late")
+    sim.tick(C, 0.0)
+    while sim.deliver(C, L2):
+        pass
+    sim.tick(L2, 0.0)
+    told = [m for m in list(sim.chan[(L2, C)]) if isinstance(m, dict) and m.get("type") == "apply_command_response"]
+    inside = bool(told) and told[0].get("log_idx", 10 ** 9) <= sim.last_index(C)
+    sim.run(60)
+    viols = monitors.callbacks_contract(sim) + monitors.errors(sim) + monitors.sm_safety(sim)
+    got = [(r, e) for (n, k, r, e) in sim.callbacks if k == late]
+    ran = dict((n, [x for (_, x) in sim.execs[n]].count("late")) for n in voters)
+    if all(v == 1 for v in ran.values()) and (len(got) != 1 or got[0][1] != 0):
+        viols.append({"signature": "callback:subscriber-of-new-entry-answered-for-the-deleted-one",
+                      "what": "'late' was placed at %s by leader %s inside the stale suffix of %s (log end %d) and applied once on every node, "
+                              "but its submitter was told %s" % (told[0].get("log_idx") if told else None, L2, C, sim.last_index(C), got)})
+    return sim, viols, None if inside else "the command did not land inside the stale range"
+
+
+def scenario_snapshot_while_waiting_reply(repo, seed, observer=False):
+    """A lagging node learns the leader from the FIRST chunk of a multi-chunk snapshot, forwards a command of its own, and
+    only then receives the rest of the snapshot and installs it; the leader's reply arrives afterwards.  What the node
+    keeps about its forwarded commands is not part of any snapshot: the reply finds the callback, which fires once with
+    the command's result."""
+    voters = ["a", "b", "c"]
+    sim = Sim(repo, voters, observers=(["o"] if observer else []), seed=seed,
+              conf={"logCompactionBatchSize": 48, "logCompactionMinEntries": 10 ** 6, "logCompactionMinTime": 10 ** 6})
+    sim.connect_all()
+    L = sim.elect(among=voters)
+    if L is None:
+        return sim, [], "no leader"
+    sim.run(6)
+    others = [x for x in voters if x != L]
+    F = "o" if observer else others[0]
+    peers = [x for x in (voters + (["o"] if observer else [])) if x != F]
+    for x in peers:
+        sim.disconnect(F, x)
+    among = list(peers)
+    for k in range(14):
+        sim.submit(L, "m%02d" % k, with_cb=False)
+    sim.run(8, among=among)
+    sim.compact(L)
+    sim.run(4, among=among)
+    sim.connect(F, L)
+    sim.tick(L, 0.125)
+    while sim.deliver(L, F):
+        pass
+    sim.tick(F, 0.0)
+    while sim.deliver(F, L):
+        pass
+    sim.tick(L, 0.125)                           # the snapshot goes out in several chunks
+    chunks = len([m for m in sim.chan[(L, F)] if isinstance(m, dict) and m.get("serialized") is not None])
+    if chunks < 2:
+        return sim, [], "snapshot did not go out in several chunks (%d)" % chunks
+    sim.deliver(L, F)                            # first chunk only: F now knows the leader
+    cid = sim.submit(F, "c1")
+    sim.tick(F, 0.0)
+    forwarded = len(sim.chan[(F, L)]) > 0
+    while sim.deliver(L, F):                     # the rest of the snapshot: installed
+        pass
+    sim.tick(F, 0.0)
+    sim.run(40)
+    viols = monitors.callbacks_contract(sim) + monitors.errors(sim) + monitors.sm_safety(sim)
+    got = [(r, e) for (n, k, r, e) in sim.callbacks if k == cid]
+    ran = dict((n, [x for (_, x) in sim.execs[n]].count("c1")) for n in voters)
+    if forwarded and all(v == 1 for v in ran.values()) and len(got) != 1:
+        viols.append({"signature": "callback:forwarded-command-forgotten-by-snapshot-install",
+                      "what": "%s forwarded 'c1' after the first of %d snapshot chunks, installed the snapshot, then the leader's reply came: "
+                              "the command was applied once on every voter, its callback fired %s" % (F, chunks, got)})
+    return sim, viols, None if forwarded else "the command was not forwarded between the chunks"
+
+
 def run(ctx):
     t0 = time.time()
     cases, viols, samples, notes = 0, [], [], []
@@ -383,6 +504,27 @@ def run(ctx):
                         for x in v:
                             x["replay"] = {"component": "corr.c02_forwarding", "fwdlocal": [observer, at, batch, n_local], "seed": ctx.seed}
                         viols.extend(v)
+    if not viols:
+        for n_stale in (7, 10, 5):
+            for batch in (True, False):
+                sim, v, note = scenario_subscription_over_stale_suffix(ctx.repo, ctx.seed, n_stale, batch)
+                cases += 1
+                seen.add((("stalesub", n_stale, batch), note is None))
+                if note:
+                    notes.append(note)
+                for x in v:
+                    x["replay"] = {"component": "corr.c02_forwarding", "stalesub": [n_stale, batch], "seed": ctx.seed}
+                viols.extend(v)
+    if not viols:
+        for observer in (False, True):
+            sim, v, note = scenario_snapshot_while_waiting_reply(ctx.repo, ctx.seed, observer)
+            cases += 1
+            seen.add((("snapreply", observer), note is None))
+            if note:
+                notes.append(note)
+            for x in v:
+                x["replay"] = {"component": "corr.c02_forwarding", "snapreply": [observer], "seed": ctx.seed}
+            viols.extend(v)
     reached = len([1 for (p, ok) in seen if ok])
     r = {"name": "corr.c02_forwarding", "cases": cases, "distinct": len(seen), "violations": viols[:5],
          "coverage": {"plans": len(plans), "plans_reaching_the_point": reached, "notes": sorted(set(notes))[:5]},
@@ -391,6 +533,10 @@ def run(ctx):
         r["inconclusive"] = "no plan reached the stale-response point"
     elif not any(ok for (p, ok) in seen if isinstance(p, tuple) and p and p[0] == "snapwait" and p[1] == 0):
         r["inconclusive"] = "no snapshot ending exactly at a waiting position"
+    elif not any(ok for (p, ok) in seen if isinstance(p, tuple) and p and p[0] == "snapreply"):
+        r["inconclusive"] = "no command forwarded between the chunks of a snapshot"
+    elif not any(ok for (p, ok) in seen if isinstance(p, tuple) and p and p[0] == "stalesub"):
+        r["inconclusive"] = "no forwarded command landed inside a stale suffix before its truncation"
     elif not any(p[0] == "reqlead" and ok for (p, ok) in seen if isinstance(p, tuple) and p and p[0] == "reqlead"):
         r["inconclusive"] = "requester never became leader while waiting for acknowledged positions"
     return r
@@ -398,6 +544,12 @@ def run(ctx):
 
 def replay(ctx, violation):
     rp = violation.get("replay", {})
+    if "snapreply" in rp:
+        sim, v, note = scenario_snapshot_while_waiting_reply(ctx.repo, rp.get("seed", 1), *rp["snapreply"])
+        return {"violated": bool(v), "violations": v[:5], "note": note}
+    if "stalesub" in rp:
+        sim, v, note = scenario_subscription_over_stale_suffix(ctx.repo, rp.get("seed", 1), *rp["stalesub"])
+        return {"violated": bool(v), "violations": v[:5], "note": note}
     if "fwdlocal" in rp:
         sim, v, note = scenario_forward_then_local(ctx.repo, rp.get("seed", 1), *rp["fwdlocal"])
         return {"violated": bool(v), "violations": v[:5], "note": note}
